@@ -239,18 +239,22 @@ impl Family for Repro {
             // file is transmitted whole in either role; only the list it stands in changes)
             let mut lens: Vec<i64> = Vec::new();
             let mut role_exits = Vec::new();
-            for as_ref in [false, true] {
+            // (one more file that declares a module - with an attribute - and nothing else: it is a file like any other)
+            let only = "zz_only_a_module.slice".to_owned();
+            std::fs::write(dir.join(&only), "[cs::attr(\"x\")] module OnlyAModule\n").unwrap();
+            let mut all: Vec<String> = names.clone();
+            all.push(only);
+            for as_ref in [None, Some(n - 1), Some(n)] {
                 let _ = std::fs::remove_file(dir.join("gen1.stdin"));
-                let mut argv: Vec<String> = names[..n - 1].to_vec();
-                if as_ref {
-                    argv.extend(["-R".to_owned(), names[n - 1].clone()]);
-                } else {
-                    argv.push(names[n - 1].clone());
+                let mut argv: Vec<String> = Vec::new();
+                for (i, f) in all.iter().enumerate() {
+                    if as_ref == Some(i) {
+                        argv.extend(["-R".to_owned(), f.clone()]);
+                    } else {
+                        argv.push(f.clone());
+                    }
                 }
                 argv.extend(["--diagnostic-format".into(), "json".into(), "-G".into(), gen.display().to_string()]);
-                if n < 2 {
-                    break;
-                }
                 let res = crate::fam_driver::run_limited(std::process::Command::new(crate::fam_driver::slicec_bin()).args(&argv).current_dir(&dir), std::time::Duration::from_secs(20));
                 lens.push(std::fs::read(dir.join("gen1.stdin")).map(|b| b.len() as i64).unwrap_or(-1));
                 role_exits.push(res.status.and_then(|s| s.code()).unwrap_or(-1));
